@@ -266,13 +266,21 @@ func faults(t *rapid.T, b base) (Case, error) {
 			}
 		}
 	}
-	// even msg_id sealed correctly (client parity)
-	e2 := b.Env
-	e2.MsgID &^= 3
-	c = Case{Key: b.Key, Data: ref.Seal(b.Key, e2, 8, b.Pad), Fault: "correctly sealed but msg_id has client parity"}
-	if err := eval(c, true, "parity"); err != nil {
-		return c, err
+	// correctly sealed, every combination of the two parity bits with the sign bit of msg_id (00 and 10 must be refused)
+	for _, low := range []int64{0, 1, 2, 3} {
+		for _, sign := range []bool{false, true} {
+			e2 := b.Env
+			e2.MsgID = e2.MsgID&^3&^(-1<<63) | low
+			if sign {
+				e2.MsgID |= -1 << 63
+			}
+			c = Case{Key: b.Key, Data: ref.Seal(b.Key, e2, 8, b.Pad), Fault: fmt.Sprintf("correctly sealed, msg_id %d (low bits %02b, sign bit %v)", e2.MsgID, low, sign)}
+			if err := eval(c, low%2 == 0, fmt.Sprintf("parity:low=%02b,negative=%v", low, sign)); err != nil {
+				return c, err
+			}
+		}
 	}
+	run.Exhaustive("parity bits x sign bit of msg_id, encrypted and plain", 16)
 	// plain packets
 	pl := make([]byte, 8, 24+len(b.Env.Body))
 	pl = binary.LittleEndian.AppendUint64(pl, uint64(b.Env.MsgID))
@@ -296,11 +304,19 @@ func faults(t *rapid.T, b base) (Case, error) {
 			return c, err
 		}
 	}
-	d2 := append([]byte{}, pl...)
-	d2[8] &^= 3
-	c = Case{Plain: true, Data: d2, Fault: "plain packet with client-parity msg_id"}
-	if err := eval(c, true, "plain:parity"); err != nil {
-		return c, err
+	for _, low := range []int64{0, 1, 2, 3} {
+		for _, sign := range []bool{false, true} {
+			id := b.Env.MsgID&^3&^(-1<<63) | low
+			if sign {
+				id |= -1 << 63
+			}
+			d2 := append([]byte{}, pl...)
+			binary.LittleEndian.PutUint64(d2[8:], uint64(id))
+			c = Case{Plain: true, Data: d2, Fault: fmt.Sprintf("plain packet with msg_id %d (low bits %02b, sign bit %v)", id, low, sign)}
+			if err := eval(c, low%2 == 0, fmt.Sprintf("plain:parity:low=%02b,negative=%v", low, sign)); err != nil {
+				return c, err
+			}
+		}
 	}
 	return c, nil
 }
